@@ -218,6 +218,38 @@ inline bool ri_interior_of_borders(interior_node* in, bool expect_root, base_nod
     return true;
 }
 
+// T3(2; A, B): interior root with one separator over two border children (contents symbolic, separator any tuple that
+// bounds them: greater than every entry of the left child, not greater than any entry of the right child)
+template<unsigned A, unsigned B>
+struct t3state {
+    interior_node* root;
+    bstate<A> a;
+    bstate<B> b;
+    std::uint64_t sep_slice;
+    unsigned sep_len;
+};
+template<unsigned A, unsigned B>
+inline void build_t3(t3state<A, B>& t, unsigned map_a = 0, unsigned map_b = 0) {
+    build_border<A>(t.a, false, map_a);
+    build_border<B>(t.b, false, map_b);
+    t.sep_slice = yk_nondet_u64() & key_mask();
+    t.sep_len = yk_nondet_u8();
+    yk_assume(valid_tuple(t.sep_slice, t.sep_len));
+    assume_range(t.a, false, 0, 0, true, t.sep_slice, t.sep_len);
+    assume_range(t.b, true, t.sep_slice, t.sep_len, false, 0, 0);
+    auto* in = new interior_node();
+    t.root = in;
+    in->set_child_at(0, t.a.node);
+    in->set_child_at(1, t.b.node);
+    in->set_key(0, t.sep_slice, (key_length_type) t.sep_len);
+    in->set_n_keys(1);
+    in->set_version(mk_version(false, true, false, YK_VINS0, YK_VSPLIT0));
+    t.a.node->set_parent(in);
+    t.b.node->set_parent(in);
+    t.a.node->set_next(t.b.node);
+    t.b.node->set_prev(t.a.node);
+}
+
 struct sym_key {
     unsigned char b[24];
     std::size_t len;
